@@ -4,7 +4,7 @@ import core
 RULE = ("trial = (fake! arm carrying `times`: fn when+returns, fn returns, fn unit assign, unsafe fn returns, fn when+assign+returns, fn unit "
         "times-only) x N in {0,1,2,3,5,8,16,64} (and 255,256,257,65535,65536,65537 with k in {0,1,N-1..N+2}, t in {1,4}) x k in {0..N+2} matching calls x t in {1,2,4,8,16} threads released together by a spin "
         "barrier, with 0-3 non-matching calls interleaved for arms with `when`; `times:` reads a static so N is chosen at run time; the "
-        "harness zeroes the counter (public CallCountVerifier::WithCount) before installing in half of the trials and leaves it to the library in the other half; plus boundary trials (exactly N matching calls and several non-matching ones, one per thread, released together; one `when` condition is deliberately slow), admission races (more matching callers than budget, one call per thread) and a worker that calls the target the moment it sees the fully written entry patch (a call absorbed during installation must be counted). Also: a call past the budget (and a non-matching one) made by a destructor while the calling thread unwinds from an unrelated contained panic must still be rejected at the call; and with the next lifetime of the same call site queued in InjectorPP::new() on another thread while this one's scope exit is stretched by delays injected into its deallocations (harness allocator), the exit verdict of a lifetime that made exactly N calls must not panic. Also: four functions a library might be tempted to call itself (Instant::now, SystemTime::now, fs::read_to_string::<&str>, env::var::<&str>) are faked with times: 0 and never called by the test while another fake is installed, used and removed and a second thread queues for the guard: any panic means the library's own work was charged to the user's fake. Also: with the library's own mprotect on the restore path slowed to 25 ms a worker hammers the target from the moment the scope exit starts (budget already spent): a rejection that was complete 10 ms before the exit returned must show in the exit verdict. Also: an in-budget call made by a destructor during an unrelated contained unwind uses up its slot (the next call is over budget); two counted fakes of different arms (two of them unsafe extern "C") alive in one injector each keep their own count (exact: silent; one call short on one: reported); a refused later installation, contained by the test body, leaves the expectation of an earlier counted fake alone. Oracle: admitted == min(k,N); 'called more "
+        "harness zeroes the counter (public CallCountVerifier::WithCount) before installing in half of the trials and leaves it to the library in the other half; plus boundary trials (exactly N matching calls and several non-matching ones, one per thread, released together; one `when` condition is deliberately slow), admission races (more matching callers than budget, one call per thread) and a worker that calls the target the moment it sees the fully written entry patch (a call absorbed during installation must be counted). Also: a call past the budget (and a non-matching one) made by a destructor while the calling thread unwinds from an unrelated contained panic must still be rejected at the call; and with the next lifetime of the same call site queued in InjectorPP::new() on another thread while this one's scope exit is stretched by delays injected into its deallocations (harness allocator), the exit verdict of a lifetime that made exactly N calls must not panic. Also: four functions a library might be tempted to call itself (Instant::now, SystemTime::now, fs::read_to_string::<&str>, env::var::<&str>) are faked with times: 0 and never called by the test while another fake is installed, used and removed and a second thread queues for the guard: any panic means the library's own work was charged to the user's fake. Also: with the library's own mprotect on the restore path slowed to 25 ms a worker hammers the target from the moment the scope exit starts (budget already spent): a rejection that was complete 10 ms before the exit returned must show in the exit verdict. Also: an in-budget call made by a destructor during an unrelated contained unwind uses up its slot (the next call is over budget); two counted fakes of different arms (two of them unsafe extern C arms) alive in one injector each keep their own count (exact: silent; one call short on one: reported); a refused later installation, contained by the test body, leaves the expectation of an earlier counted fake alone. Oracle: admitted == min(k,N); 'called more "
         "times' panics == max(0,k-N); every non-matching call panics 'unexpected arguments' and leaves the counter alone; counter == k; "
         "scope-exit panic iff k != N, naming both numbers; at most one panic at exit. distinct = (arm, N, k, t, with/without non-matching) "
         "— multi-thread trials in which no two call windows overlapped are classed separately (/no-overlap)")
